@@ -11,6 +11,7 @@
 import Nq.Lemmas.CleanL
 import Nq.Lemmas.SpawnL
 import Nq.Lemmas.SpawnStreamL
+import Nq.Lemmas.SendTruncL
 import Nq.Lemmas.SendL
 import Nq.Lemmas.SendRefL
 
@@ -254,13 +255,61 @@ theorem C18_spawn_body (k : Kind) (wstat : Nat) (out : Bytes) :
   ⟨reportBody_textOK k wstat out, reportBody_shape k wstat out⟩
 
 /-- **One report per command over a whole session**: for every script of events (bytes arriving on
-descriptor 0 in any chunking, children writing and exiting in any order, any file-system
-behaviour), when the program has run to its end the number of reports written equals the number
-of complete commands received, and no child is left.  `countCmds` counts with the bare framing
-automaton; `C18_spawn_grammar` says what it counts. -/
+descriptor 0 in any chunking, descriptor 0 reaching EOF at any point — also while deliveries are in
+flight —, children writing, and dying in any order, each death seen either as SIGCHLD + EOF on the
+pipe in one wake-up or as SIGCHLD first (`select` returning -1) with the EOF on the pipe read any
+number of wake-ups later; any file-system behaviour), when the program has run to its end the
+number of reports written equals the number of complete commands received before the end of input
+(`inputOf`), and no slot is left in use.  `countCmds` counts with the bare framing automaton;
+`C18_spawn_grammar` says what it counts. -/
 theorem C18_spawn_one (k : Kind) (plan : List Nat) (script : List Op) :
     nReports (run k plan script).2 = countCmds .delnum (inputOf script) ∧ usedCount (run k plan script).1 = 0 :=
   run_balance k plan script
+
+/-- **Every accepted command has its report before the spawner leaves** — the exit test of the main
+loop (`exited`: end of input seen and no slot `used`).  (1) At every point of every session, reports
+written + slots in use = complete commands received; a slot stays in use from `spawn()` until its
+report is written, in particular while its child has been reaped (`pid = 0`) and the EOF on its pipe
+has not been read yet.  (2) Hence whenever the exit test holds, exactly one report per received
+command has been written.  (3) A slot in use — running or reaped — makes the exit test fail.
+(4) Once the test holds no event has any effect, so the model that runs the whole script equals the
+one that stops at the exit point `consumed` (which the driver compares with the real program's). -/
+theorem C18_spawn_exit (k : Kind) (plan : List Nat) (script : List Op) :
+    nReports (orun k { plan := plan } script).2 + usedCount (orun k { plan := plan } script).1
+      = countCmds .delnum (inputOf script) ∧
+    (exited (orun k { plan := plan } script).1 = true →
+      nReports (orun k { plan := plan } script).2 = countCmds .delnum (inputOf script)) ∧
+    (∀ (st : St) i out, st.slots.getD i none = some out → exited st = false) ∧
+    (∀ (st : St) op, exited st = true → ostep k st op = (st, [])) ∧
+    orun k { plan := plan } (script.take (runConsumed k plan script)) = orun k { plan := plan } script := by
+  have hb := run_prefix_balance k plan script
+  refine ⟨hb, ?_, fun st i out h => not_exited_of_used st i out h, fun st op h => ostep_exited k st op h,
+    orun_take_consumed k _ script⟩
+  intro he
+  have := ((exited_iff _).mp he).2
+  omega
+
+/-- **A reaped child still owes its report**: the SIGCHLD handler (`reap`) leaves the slot in use and
+writes nothing; the EOF on the pipe of a reaped child (`pipeEof`) writes exactly one report, carrying
+the slot's number, the wait status the handler stored and a body that starts with K/Z/D and has no
+NUL, and releases exactly that slot; on any other slot it does nothing. -/
+theorem C18_spawn_reap (k : Kind) (st : St) (slot wstat : Nat) (hl : st.slots.length = Nq.Gen.auto_spawn) :
+    (reap st slot wstat).slots = st.slots ∧ (ostep k st (.reap slot wstat)).2 = [] ∧
+    nReports (pipeEof k st slot).2 + usedCount (pipeEof k st slot).1 = usedCount st ∧
+    (∀ d b, Ev.report d b ∈ (pipeEof k st slot).2 → d = slot ∧ textOK b = true ∧
+      ∃ out ws, st.slots.getD slot none = some out ∧ st.dead.getD slot none = some ws ∧ b = reportBody k ws out) ∧
+    ((pipeEof k st slot).2 = [] → (pipeEof k st slot).1 = st) := by
+  refine ⟨(reap_facts st slot wstat).1, rfl, (pipeEof_balance k st slot hl).1, ?_, ?_⟩
+  · intro d b hb
+    rcases pipeEof_cases k st slot with ⟨e, _⟩ | ⟨out, ws, h1, h2, e⟩
+    · rw [e] at hb; cases hb
+    · rw [e] at hb
+      simp only [List.mem_singleton, Ev.report.injEq] at hb
+      exact ⟨hb.1, hb.2 ▸ reportBody_textOK k ws out, out, ws, h1, h2, hb.2⟩
+  · intro hn
+    rcases pipeEof_cases k st slot with ⟨e, _⟩ | ⟨out, ws, _, _, e⟩
+    · rw [e]
+    · rw [e] at hn; cases hn
 
 /-- **The open/spawn discipline over a whole session** (the oracle `opensOK` the driver runs on the
 real programs): for every script of events — any bytes on descriptor 0 in any chunking, children
@@ -362,6 +411,18 @@ theorem C18_send_reference (c : Nat) (jobs : List Job) (slots : List (Option Slo
     refMarks c jobs slots s = refMarksDecl c jobs slots s :=
   Nq.Lemmas.SendRefL.refMarks_eq_decl c jobs slots s
 
+/-- **An accepted report never exceeds REPORTMAX bytes** (the oracle `truncOK` the driver runs on the
+real program's log): for every byte stream, in whatever pieces it is read, from any state whose
+report line holds at most REPORTMAX bytes, every log line `delivery <n>: success|failure|deferral:
+<text>` carries at most REPORTMAX − 2 bytes of report text — REPORTMAX less the delivery number and
+the status letter — or at most REPORTMAX − 3 bytes followed by the fixed sentence qmail-send itself
+appends for a message past its queue lifetime.  (`feed` is a fold over single bytes: the model has no
+notion of `read()` chunks, so the bound holds for every chunking; the harness delivers the same
+stream in reads of 1, 2, 3, 7, 1023, 1024, 2047, 2048 and random sizes and the driver compares.) -/
+theorem C18_send_trunc (env : Env) (st : St) (s : Bytes) (h1 : st.dlen ≤ Nq.Gen.REPORTMAX)
+    (h2 : st.drev.length = st.dlen) : truncOK (feed env st s).2 = true :=
+  Nq.Lemmas.SendTruncL.feed_truncOK env st s h1 h2
+
 /- Still by oracle only: the bounce half of `sendOK` (bounce appends form a sub-multiset of the
    in-flight messages' bounce files) over a whole stream; `C18_send_flip` is its per-report step. -/
 
@@ -423,6 +484,28 @@ example : ((Nq.Spawn.cfeed {} [3, 47, 49, 0, 115, 0, 114, 64, 104, 0]).2.any
 example : Nq.Spawn.rreport 0 [114, 104, 0, 75] = [68, 104] := by decide
 /-- rspawn: "r" "ok" NUL "K" "accepted" NUL: report "K" "ok" "accepted" -/
 example : Nq.Spawn.rreport 0 [114, 111, 107, 0, 75, 97, 0] = [75, 111, 107, 97] := by decide
+/-- end of input with a delivery in flight whose child is reaped first: after `c`, `e`, `k` the exit test fails (the
+slot still owes its report); the EOF on the pipe writes the report and only then the program may leave -/
+example : Nq.Spawn.exited (Nq.Spawn.orun .l {} [.cmd [0, 49, 0, 0, 64, 0], .eof, .reap 0 0]).1 = false := by decide
+example : (Nq.Spawn.orun .l {} [.cmd [0, 49, 0, 0, 64, 0], .eof, .reap 0 0, .peof 0]).2 =
+    [Nq.Spawn.Ev.openRead [49], .spawnCall 0 [] [64] 0, .report 0 [75]] := by decide
+example : Nq.Spawn.exited (Nq.Spawn.orun .l {} [.cmd [0, 49, 0, 0, 64, 0], .eof, .reap 0 0, .peof 0]).1 = true := by decide
+example : Nq.Spawn.runConsumed .l [] [.cmd [0, 49, 0, 0, 64, 0], .eof, .reap 0 0, .peof 0, .cmd [1]] = 4 := by decide
+/-- the truncation oracle reads the report text of a log line: "delivery 7: success: ok\n" carries "ok\n";
+a status line carries none -/
+example : reportTextOf [100, 101, 108, 105, 118, 101, 114, 121, 32, 55, 58, 32, 115, 117, 99, 99, 101, 115, 115, 58, 32, 111, 107, 10]
+    = some [111, 107, 10] := by decide
+example : reportTextOf [115, 116, 97, 116, 117, 115, 58, 32, 108, 111, 99, 97, 108, 32, 48, 47, 49, 10] = none := by decide
+/-- the truncation oracle is a real bound: a text (with its newline) that fits has at most TEXTMAX + 1 bytes unless it
+ends with the fixed sentence, and never more than TEXTMAX − 1 + 74 -/
+example (t : Bytes) (h : textFits t = true) :
+    t.length ≤ TEXTMAX + 1 ∨ (DYINGLOG <:+ t ∧ t.length ≤ TEXTMAX - 1 + 74) := by
+  have hl : DYINGLOG.length = 74 := by decide
+  unfold textFits at h
+  simp only [Bool.or_eq_true, Bool.and_eq_true, decide_eq_true_eq, hl] at h
+  rcases h with h | ⟨h, hs⟩
+  · exact Or.inl h
+  · exact Or.inr ⟨List.isSuffixOf_iff_suffix.mp hs, h⟩
 /-- two commands, the second cut short: one complete command -/
 example : Nq.Lemmas.SpawnL.countCmds .delnum [3, 49, 0, 0, 64, 0, 4, 50, 0, 115] = 1 := by decide
 /-- okPath accepts "1/24", rejects "/1", "1/.", "" -/
